@@ -80,11 +80,17 @@ def f15(plan, violation, rec):
     if plan.get("prop") != "C10":
         return False
     orders = None
+    used = None
     for v in (rec or {}).get("violations", []):
         if v.get("oracle") == "passes_commute" and v.get("orders"):
             orders = v["orders"]
+            used = v.get("override_used")
             break
     orders = orders or violation.get("orders")
+    if used is None:
+        used = violation.get("override_used")
+    if used is None:
+        used = plan.get("override") or {}
     if not orders:
         return False
 
@@ -97,7 +103,7 @@ def f15(plan, violation, rec):
         return False
     prog = plan["texts"][0]["prog"]
     declared = dict((n, v) for n, v in prog["lets"])
-    changed = {k for k, v in (plan.get("override") or {}).items() if k in declared and declared[k] != v}
+    changed = {k for k, v in used.items() if k in declared and declared[k] != v}
     culprits = changed & _index_lets(prog)
     if not culprits:
         return False
@@ -106,7 +112,9 @@ def f15(plan, violation, rec):
     from . import shrink, engine_session
 
     p2 = copy.deepcopy(plan)
-    p2["override"] = {k: v for k, v in plan["override"].items() if k not in culprits}
+    p2["override"] = {k: v for k, v in (plan.get("override") or {}).items() if k not in culprits}
+    if p2.get("override2") is not None:
+        p2["override2"] = {k: v for k, v in p2["override2"].items() if k not in culprits}
     p2["tapes"] = None
     try:
         r2 = shrink.run_plan(engine_session, p2)
